@@ -1123,6 +1123,7 @@ func init() {
 			{Name: "all 48x48 registration pairs x 3 shapes (thorough only)", Exhaustive: true, N: Fixed(0, 48*48*3), Run: c13Pairs},
 			{Name: "cells carrying callbacks added at several places and copied by value", N: Fixed(2000, 1000000), Run: c13Copies},
 			{Name: "a callback that renders its own table once from inside a pass: twice the invocations of a single pass", N: Fixed(300, 30000), Run: c13Nested},
+			{Name: "callback registered on a by-value copy of a placed cell, the copy then added to another row (4 times x 2 ways of copying x 2 orders)", Exhaustive: true, N: Fixed(16, 16), Run: c13CopyOfPlaced},
 			{Name: "a row hook appends a cell to the row being added (1-4 cells x 4 ways of making the row)", Exhaustive: true, N: Fixed(16, 16), Run: c13Growing},
 		},
 	})
